@@ -103,6 +103,8 @@ pub use deferred_reader::DeferredReader;
 #[cfg(flussab_verif)]
 pub use deferred_reader::VerifReaderState;
 pub use deferred_writer::DeferredWriter;
+#[cfg(flussab_verif)]
+pub use deferred_writer::VerifWriterState;
 pub use parser::{Parsed, Result, ResultExt};
 
 pub use Parsed::*;
